@@ -157,6 +157,12 @@ Theorem C19_push_additive_col_refuted :
   exists s t, col (end_loc true (s ++ t)) <> N.min (col (end_loc true s) + col (end_loc true t)) U16MAX.
 Proof. exact push_additive_col_refuted. Qed.
 
+(** the formatter's running end location (struct Output, 6889e96): after any sequence of pushed
+    and popped characters the location read from the counters is end_loc of the text *)
+Theorem C19_running_end_loc : forall ops,
+  let o := fold_left ostep ops out0 in out_end_loc o = end_loc true (out_text o).
+Proof. exact running_end_loc. Qed.
+
 (** non-vacuity: "é", CR LF, "x" lexed as three tokens *)
 Example C19_nonvacuous :
   let i : input := [[(2, COther)]; [(1, CCr); (1, CNl)]; [(1, COther)]] in
@@ -197,3 +203,4 @@ Print Assumptions C19_guard_err_span_refuted_pre.
 Print Assumptions C19_out_true_col_app.
 Print Assumptions C19_end_loc_app.
 Print Assumptions C19_push_additive_col_refuted.
+Print Assumptions C19_running_end_loc.
